@@ -434,6 +434,9 @@ class Generator:
         # the in-trait copy needs no hints
         intrait.entry, intrait.loops, intrait.before, intrait.after, intrait.tail = [], {}, [], [], []
         intrait.panic_state = None
+        if intrait.opts.get("implcopy") == "nocontract":
+            # an impl of one of the crate's own traits inherits the trait's contract: the copy states none
+            intrait.contract = []
         n0 = len(self.fns)
         self.emit_fn_inner(intrait)
         self.fns[n0]["assumed"] = True
